@@ -192,7 +192,7 @@ fn check_suggestion(ctx: &mut Ctx, ex: &Expected, d: &DiagRec, src: &str) -> Res
                             if !(rel <= 1e-9 || v.abs() < 1e-290) {
                                 return Err(("suggestion_gives_another_value".into(), format!("{:?} gives {} instead of {}", probe.chars().take(200).collect::<String>(), g, v)));
                             }
-                        } else if (integral && g != *v) || d > 4 {
+                        } else if (integral && g != *v) || d > 8 {
                             return Err(("suggestion_gives_another_value".into(), format!("{:?} gives {} instead of {} ({} ulp)", probe, g, v, d)));
                         }
                         ctx.count("suggestions_round_tripped");
